@@ -16,6 +16,10 @@ type FormulaOpts struct {
 	NoConstants  bool
 	NoEmpty      bool // no empty and()/or()
 	Excluded     *int // counts big groups that were clipped because of BigGroupsPos
+	// Groups remembers the exactly-one groups already drawn for this formula, so that later groups can be
+	// related to them (same names in another order, same first/last name and size with other inner names):
+	// groups that need auxiliary variables must not get theirs mixed up.
+	Groups *[][]string
 }
 
 // Formula draws a formula tree. pol is the polarity of the position: +1, -1 or 0 (both).
@@ -73,8 +77,46 @@ func uniqueGroup(t *rapid.T, o FormulaOpts, pol int) *oracle.F {
 		}
 	}
 	perm := rapid.Permutation(append([]string{}, o.Names...)).Draw(t, "groupNames")
+	names := perm[:k]
+	if o.Groups != nil {
+		if prev := *o.Groups; len(prev) > 0 && Chance(t, 1, 2, "related") {
+			g := prev[Uniform(t, 0, len(prev)-1, "whichGroup")]
+			if !(o.BigGroupsPos && pol != 1 && len(g) > 4) {
+				switch rapid.IntRange(0, 2).Draw(t, "relation") {
+				case 0: // the same names in another order
+					names = rapid.Permutation(append([]string{}, g...)).Draw(t, "reorder")
+				case 1: // same first and last name, same size, other names inside where the pool allows
+					names = append([]string{}, g...)
+					inGroup := map[string]bool{}
+					for _, n := range g {
+						inGroup[n] = true
+					}
+					var spare []string
+					for _, n := range o.Names {
+						if !inGroup[n] {
+							spare = append(spare, n)
+						}
+					}
+					for i := 1; i+1 < len(names) && len(spare) > 0; i++ {
+						if rapid.Bool().Draw(t, "swapInner") {
+							names[i], spare = spare[0], spare[1:]
+						}
+					}
+					if len(names) > 3 && rapid.Bool().Draw(t, "swapTwo") {
+						names[1], names[2] = names[2], names[1]
+					}
+				default: // reversed
+					names = make([]string, len(g))
+					for i, n := range g {
+						names[len(g)-1-i] = n
+					}
+				}
+			}
+		}
+		*o.Groups = append(*o.Groups, append([]string{}, names...))
+	}
 	f := &oracle.F{Op: "unique"}
-	for _, n := range perm[:k] {
+	for _, n := range names {
 		f.Kids = append(f.Kids, oracle.V(n))
 	}
 	return f
